@@ -8,7 +8,7 @@ from lib.vlib import HARNESS
 META = {
     "property_id": "C18",
     "technique": "Coq proof over a Gallina model of the build engine + history correspondence with fresh-process builds",
-    "level_text": "Theorems: per_label_shape (every build, every mode), evaluating_iff_body_runs, lines_chunking_invariant, flush_leaves_empty, second_run_repeats_nothing (lineWriter), run_done_once_last (the complete stream of a build ends with exactly one run-done carrying the requested target's result), output_inside_window (per label the stream is nothing / up-to-date / lone failed / evaluating, then iff the body ran exactly the lines of what it wrote whatever the chunking, then one completion); Output/Props_C18.v: one_channel_each_stream_in_order (producers of whole-line blocks -- a process's standard output and standard error -- through ONE channel and one copier: any interleaving, any chunking, every line once and intact, each stream in its own order), separate_copiers_refuted (a copier per stream into the one line writer tears lines), writer_per_copier_delivers_its_stream. Correspondence: per-label event sequences of every build vs the model; real lineWriter vs model on random chunkings, two rounds per writer; the four CLI renderers (line, status, JSON, DOT) driven by the event streams of ten real build scenarios (no panic, well-formed JSON stream). Oracles on the implementation: run-done once/last with Run's error, prints inside the evaluating window, evaluating iff body ran, lone failed event for missing dependencies, output of succeeding AND failing bodies (incl. an unterminated last line) delivered exactly once before the completion event; output of real processes started by os.exec / sh.exec / os.output / sh.output that write thousands of numbered lines to one stream, to both in turn, or to both at the same time (atomic whole-line blocks), with fast and slow consumers, several processes per body, failing processes, parallel targets, two processes of one shell command: every delivered line is the next line of its stream, every stream complete, inside the window.",
+    "level_text": "Theorems: per_label_shape (every build, every mode), evaluating_iff_body_runs, lines_chunking_invariant, flush_leaves_empty, second_run_repeats_nothing (lineWriter), run_done_once_last (the complete stream of a build ends with exactly one run-done carrying the requested target's result), output_inside_window (per label the stream is nothing / up-to-date / lone failed / evaluating, then iff the body ran exactly the lines of what it wrote whatever the chunking, then one completion); Output/Props_C18.v: one_channel_each_stream_in_order (producers of whole-line blocks -- a process's standard output and standard error -- through ONE channel and one copier: any interleaving, any chunking, every line once and intact, each stream in its own order), separate_copiers_refuted (a copier per stream into the one line writer tears lines), writer_per_copier_delivers_its_stream. Correspondence: per-label event sequences of every build vs the model; real lineWriter vs model on random chunkings, two rounds per writer; the four CLI renderers (line, status, JSON, DOT) driven by the event streams of ten real build scenarios (no panic, well-formed JSON stream). Oracles on the implementation: run-done once/last with Run's error, prints inside the evaluating window, evaluating iff body ran, lone failed event for missing dependencies, output of succeeding AND failing bodies (incl. an unterminated last line) delivered exactly once before the completion event; output of real processes started by os.exec / sh.exec / os.output / sh.output that write thousands of numbered lines to one stream, to both in turn, or to both at the same time (atomic whole-line blocks), with fast and slow consumers, several processes per body, failing processes, parallel targets, two processes of one shell command: every delivered line is the next line of its stream, every stream complete, inside the window; the REPL's run(label, callback=f) with callbacks that raise errors (for every non-Print event, every event, the first, every k-th, run-done only) over scripted and random projects and sequences of runs: run returns, the callback receives per label one of the three shapes, run-done once and last with the build's error, and exactly what a plain Events implementation receives for the same builds.",
     "level_note": "Trusted: as C01; the stream model (Build/Stream.v) composes the engine model's events with the line-writer model and is tied to the code by the protocol oracles (not by a term-by-term comparison of print events); interleavings of parallel targets and of a process's two streams are sampled by the real runner / real processes (the model quantifies over all of them; os/exec's one-pipe-per-distinct-writer behaviour is the Go standard library's and is observed, not modelled).",
     "design_ref": "DESIGN.md §6 C18",
 }
@@ -65,6 +65,39 @@ def run_procout(ctx):
         len(cases), ctx.coverage["correspondence"]["process_output"]["streams"], lines, len(by_scen)))
 
 
+def run_callback(ctx):
+    """C18: the REPL's run(label, callback=f) -- the stream the callback receives is the stream the build delivers."""
+    out = os.path.join(ctx.tmp, "callback.tsv")
+    src = os.path.join(HARNESS, "overlay/root/zz_verif_c18_callback_test.go")
+    rc, o = ctx.go_overlay_test("", {"zz_verif_c18_callback_test.go": src}, "^TestVerifC18Callback$",
+                                {"VERIF_OUT": out, "VERIF_SEED": str(ctx.seed), "VERIF_TIER": ctx.tier}, timeout=900)
+    if rc != 0 or not os.path.exists(out):
+        ctx.violation("run-callback harness failed (exit %d)" % rc, {"theorem_or_correspondence": "C18 run-callback harness", "output": o[-2000:]},
+                      found_input=False)
+        return
+    cases, by_scen = [], {}
+    for line in open(out):
+        f = line.rstrip("\n").split("\t")
+        if f[0] == "ORACLE":
+            by_scen.setdefault(f[3], []).append(f[2])
+        elif f[0] == "case":
+            cases.append((f[1], int(f[2]), json.loads(f[3])))
+    how = "harness/overlay/root/zz_verif_c18_callback_test.go, VERIF_SEED=%d VERIF_TIER=%s (VERIF_C18_ONLY=<scenario name> plays one)" % (ctx.seed, ctx.tier)
+    for scen, texts in list(by_scen.items())[:3]:
+        ctx.violation("implementation violates %s" % texts[0], {"oracle": texts[:6], "scenario": json.loads(scen), "how": how})
+    ctx.coverage["correspondence"]["run_callback"] = {
+        "scenarios": len(cases), "runs": sum(c[2]["runs"] for c in cases), "events_delivered_to_callbacks": sum(c[2]["events"] for c in cases),
+        "scenarios_by_callback_style": {str(k): sum(1 for c in cases if c[2]["style"] == k) for k in range(6)},
+        "rule": "projects {chain, diamond, failing body, missing dependency, random DAGs of 2-8 targets with 0-3 lines each, sometimes a failing "
+                "body or an absent dependency} x callback {records only, error on every non-Print, error on every event, on the first only, on "
+                "every k-th, on run-done only} x a sequence of runs (first, repeated, dry_run, always); reference = a plain Events "
+                "implementation on a fresh copy of the project, same sequence of Project.Run",
+    }
+    ctx.coverage["evaluations"] += sum(c[2]["runs"] for c in cases)
+    ctx.log("run callback: scenarios=%d runs=%d events=%d scenarios-with-oracle-failures=%d" % (
+        len(cases), ctx.coverage["correspondence"]["run_callback"]["runs"], ctx.coverage["correspondence"]["run_callback"]["events_delivered_to_callbacks"], len(by_scen)))
+
+
 def run(ctx):
     # "'evaluating' is reported exactly when the body runs (or would, in a dry run)": the comparison of a dry run's evaluating
     # set with the real build that follows it (oracle text "C13 dry run of ... predicted ...") belongs to C18 as well
@@ -73,3 +106,4 @@ def run(ctx):
     run_linewriter(ctx)
     run_renderers(ctx)
     run_procout(ctx)
+    run_callback(ctx)
